@@ -80,6 +80,7 @@ def run_history(program, history, solver_kw=None, choices=None, leaves=None, unk
     """Execute one history on a fresh solver. Returns (observations, env, solver, built)."""
     import processscheduler as ps
 
+    ctl.install()
     built = dsl.build(program)
     kw = dict(solver_kw or {})
     kw.setdefault("max_time", 30)
